@@ -8,8 +8,13 @@ import (
 )
 
 type Gen struct {
-	Rng  *rand.Rand
-	uniq int
+	// External: rules may refer to ExternalGroup. Only for the checks that
+	// judge single requests (C07, C08, C10): what a correct tool has to do
+	// when such a rule is paired with a rule using a Netspoc group is not
+	// fixed by the convergence statement.
+	External bool
+	Rng      *rand.Rand
+	uniq     int
 }
 
 func (g *Gen) addr() string {
@@ -98,7 +103,7 @@ func (g *Gen) Target() *Config {
 					return "ANY"
 				case n < 6:
 					return GroupPath + "ext-group"
-				case n < 7:
+				case n < 7 && g.External:
 					return GroupPath + ExternalGroup
 				}
 				return g.addr()
